@@ -569,6 +569,9 @@ RULES = {
     "R3n3": Rule("R3n3", "self / self.gcd(other) * other -> Mul::mul(Div::div(self, self.gcd(other)), other)", "self / self . gcd ( other ) * other", "Mul :: mul ( Div :: div ( self , self . gcd ( other ) ) , other )"),
     "R3n4": Rule("R3n4", "self / &gcd * other -> Mul::mul(Div::div(self, &gcd), other)", "self / & gcd * other", "Mul :: mul ( Div :: div ( self , & gcd ) , other )"),
     "R3n5": Rule("R3n5", "(self % other) -> (Rem::rem(self, other))", "( self % other )", "( Rem :: rem ( self , other ) )"),
+    "R3q": Rule("R3q", "&self % other -> Rem::rem(&self, other)", "& self % other", "Rem :: rem ( & self , other )"),
+    "R3r": Rule("R3r", "self % other -> Rem::rem(self, other)", "self % other", "Rem :: rem ( self , other )"),
+    "R3j": Rule("R3j", "X.into() after a call -> From::from(X)", "rem_digit ( self , other as BigDigit ) . into ( )", "From :: from ( rem_digit ( self , other as BigDigit ) )"),
     "R3m": Rule("R3m", "(X) * (Y) -> Mul::mul((X), (Y))", "( $$x ) * ( $$y )", "Mul :: mul ( ( $$x ) , ( $$y ) )"),
     # reversed mutable iteration over a Vec/slice -> index loop counting down (definition of Rev<IterMut>)
     "R10r": Rule("R10r", "for d in V.iter_mut().rev() { BODY } -> { let mut i__ = V.len(); while i__ > 0 { i__ -= 1; let d = &mut V.as_mut_slice()[i__]; BODY } }",
